@@ -3,10 +3,10 @@ import ObiVerif.Model.Grep
 # Specification of the record selection and helper lemmas (C16)
 
 `selects O o r` says, family by family and without looking at how the predicate is built, that the
-record satisfies every requested criterion.  "Requested" is read on the option globals: a numeric
-bound is requested when it differs from its built-in default (`-l 1`, `-c 1`, `-L 2e9`, `-C 2e9`
-cannot be told from "absent": see the open finding of the property), a list option when the list is
-not empty, `--id-list` when a file was given.
+record satisfies every requested criterion.  "Requested" is read on the option globals: a minimum is
+requested when it is `> 0` (the default is 0, and a bound `<= 0` holds of every length and of every
+non-negative count: `sizeHolds_exact`, `countHolds_exact`), a maximum when it differs from its
+default 2e9, a list option when the list is not empty, `--id-list` when a file was given.
 -/
 namespace ObiVerif.Grep
 
@@ -137,12 +137,33 @@ theorem eval_orAll_tot (l : List (Rec → Bool)) (r : Rec) :
 /-! ## the criteria, family by family -/
 
 def sizeHolds (o : GrepOpts) (r : Rec) : Bool :=
-  (!decide (o.minLength > 1) || decide (r.len ≥ o.minLength)) &&
+  (!decide (o.minLength > 0) || decide (r.len ≥ o.minLength)) &&
   (!decide (o.maxLength ≠ 2000000000) || decide (r.len ≤ o.maxLength))
 
 def countHolds (o : GrepOpts) (r : Rec) : Bool :=
-  (!decide (o.minCount > 1) || decide (r.count ≥ o.minCount)) &&
+  (!decide (o.minCount > 0) || decide (r.count ≥ o.minCount)) &&
   (!decide (o.maxCount ≠ 2000000000) || decide (r.count ≤ o.maxCount))
+
+/-- the guard on the minimum length loses nothing: whatever the value of `-l` -/
+theorem sizeHolds_exact (o : GrepOpts) (r : Rec) :
+    sizeHolds o r = (decide (r.len ≥ o.minLength) &&
+      (!decide (o.maxLength ≠ 2000000000) || decide (r.len ≤ o.maxLength))) := by
+  unfold sizeHolds
+  have hl : (0 : Int) ≤ r.len := by unfold Rec.len; omega
+  by_cases h : o.minLength > 0
+  · simp [h]
+  · have : o.minLength ≤ r.len := by omega
+    simp [h, this]
+
+/-- same for the minimum count on records whose count is not negative -/
+theorem countHolds_exact (o : GrepOpts) (r : Rec) (hc : 0 ≤ r.count) :
+    countHolds o r = (decide (r.count ≥ o.minCount) &&
+      (!decide (o.maxCount ≠ 2000000000) || decide (r.count ≤ o.maxCount))) := by
+  unfold countHolds
+  by_cases h : o.minCount > 0
+  · simp [h]
+  · have : o.minCount ≤ r.count := by omega
+    simp [h, this]
 
 /-- one `--restrict-to-taxon` argument -/
 def taxonHolds (O : Oracles) (s : String) (r : Rec) : Bool :=
